@@ -136,6 +136,9 @@ def length_families():
         'all-escapes': lambda n: '\n\'"\\' * n,
         'long-string-under-30-levels': lambda n: nested(['L'], 30, 'word ' * n),
         'nobreak-string-under-30-levels': lambda n: nested(['D'], 30, 'y' * (n * 3)),
+        'wide-escapes-under-30-levels': lambda n: nested(['L'], 30, '\U000e0001\x00\u2028 ' * n),
+        'astral-escapes-nobreak-under-30-levels': lambda n: nested(['D'], 30, '\U000e0001' * n),
+        'astral-escapes-under-12-levels': lambda n: nested(['L'], 12, 'ab \U000e0001\U000e0002 ' * n),
         'wide-dict-long-keys': lambda n: {('key %d ' % i) * 8: i for i in range(n)},
         'list-of-dicts': lambda n: [{'id': i, 'name': 'n%d' % i} for i in range(n)],
         'long-comment-text': lambda n: [comment(1, 'word ' * n)],
